@@ -73,6 +73,8 @@ type c13Case struct {
 	Cluster bool `json:"dial_cluster,omitempty"`
 	// Default (client set = all of 1.0..1.4 only): no WithKmipVersions option at all: the library's default set
 	Default bool `json:"default_options,omitempty"`
+	// EnforceFirst: the EnforceVersion option is passed before the version-set options instead of after them
+	EnforceFirst bool `json:"enforce_option_first,omitempty"`
 }
 
 // optionLayouts returns ways of passing the same set through WithKmipVersions (all equivalent per the option's contract:
@@ -231,7 +233,11 @@ func c13Run(c c13Case) (sig string, err error) {
 	if c.Enforced >= 0 {
 		v := allVersions[c.Enforced]
 		enforced = &v
-		opts = append(opts, kmipclient.EnforceVersion(v))
+		if c.EnforceFirst {
+			opts = append([]kmipclient.Option{kmipclient.EnforceVersion(v)}, opts...)
+		} else {
+			opts = append(opts, kmipclient.EnforceVersion(v))
+		}
 	}
 	defer func() {
 		for _, x := range conns {
@@ -356,7 +362,7 @@ func c13Run(c c13Case) (sig string, err error) {
 func TestC13Negotiation(t *testing.T) {
 	const name = "TestC13Negotiation"
 	rec := evid.New("C13", name, "exhaustive: 31 non-empty client sets x 32 server sets x 7 server behaviours (conformant descending intersection, discovery unsupported, lists versions not offered, unordered list, empty list, hanging up on every discovery request, the library's own BatchExecutor restricted to the set, also after an earlier client with another set has negotiated with the same executor) without enforcement, "+
-		"plus the same client set handed over through up to five other option layouts (descending, one WithKmipVersions option per version, two halves, highest first with a duplicate, rotated) against the conformant, unordered and library servers, plus clients with default options (no version option at all) against every server, plus clients created with DialCluster against the conformant, discovery-less and library servers, plus 31 x 32 x 5 enforced versions against the conformant server; each followed by two requests, a batch containing a Discover Versions item, and a clone; oracle: pure function of the configuration (highest common version / fallback to 1.0 / failure); "+
+		"plus the same client set handed over through up to five other option layouts (descending, one WithKmipVersions option per version, two halves, highest first with a duplicate, rotated) against the conformant, unordered and library servers, plus clients with default options (no version option at all) against every server, plus clients created with DialCluster against the conformant, discovery-less and library servers, plus 31 x 32 x 5 enforced versions against the conformant server (the EnforceVersion option before or after the version-set options, also with every option layout); each followed by two requests, a batch containing a Discover Versions item, and a clone; oracle: pure function of the configuration (highest common version / fallback to 1.0 / failure); "+
 		"non-trivial = the intersection has >= 2 elements, or the server lists a version outside the client's set, or the list is unordered; distinct by case").Attach(t)
 	rec.Exhaustive(true)
 	if rp := evid.LoadReplay(name); rp != nil {
@@ -426,8 +432,18 @@ func TestC13Negotiation(t *testing.T) {
 				}
 			}
 			for e := 0; e < 5; e++ {
-				if !run(c13Case{ClientMask: cm, ServerMask: sm, Behaviour: bConformant, Enforced: e}) {
+				if !run(c13Case{ClientMask: cm, ServerMask: sm, Behaviour: bConformant, Enforced: e, EnforceFirst: (cm+sm+e)%2 == 1}) {
 					return
+				}
+				if sm == 31 {
+					// the enforced version next to every option layout of the client set, in both orders
+					for _, lay := range optionLayouts(cm) {
+						for _, first := range []bool{false, true} {
+							if !run(c13Case{ClientMask: cm, ServerMask: sm, Behaviour: bConformant, Enforced: e, EnforceFirst: first, Options: lay}) {
+								return
+							}
+						}
+					}
 				}
 			}
 		}
